@@ -15,7 +15,9 @@ import (
 	"strings"
 	"sync"
 	"sync/atomic"
+	"syscall"
 	"time"
+	"unsafe"
 )
 
 // ---------------------------------------------------------------------------------------------
@@ -105,8 +107,8 @@ type entry struct {
 	quick    int // inputs over all states, quick tier
 	thorough int
 	chunk    int
-	cost     int  // relative cost per input (scheduling only)
-	scale    bool // take part in the scaling probe (runner implements scaler)
+	cost     int                                   // relative cost per input (scheduling only)
+	scale    bool                                  // take part in the scaling probe (runner implements scaler)
 	quota    func(state string, thorough bool) int // optional: inputs for one state (default: equal split)
 	scaleIn  []string                              // optional: states that take part in the scaling probe (default: all)
 	open     func(state string, env *env) (runner, error)
@@ -309,7 +311,7 @@ func childMain() {
 				res.HangIdx = &k
 				writeResult(sp.Dir, res)
 				fmt.Fprintf(os.Stderr, "C09-HANG idx=%d\n", k)
-				buf := make([]byte, 1<<16)
+				buf := make([]byte, 1<<20)
 				n := runtime.Stack(buf, true)
 				os.Stderr.Write(buf[:n])
 				os.Exit(7)
@@ -446,19 +448,24 @@ func childScale(e *entry, sp *spec, res *result) {
 		mins := make([]int64, len(sizes))
 		for k := range sizes {
 			mins[k] = 1 << 62
-			for rep := 0; rep < 7; rep++ {
+			for rep := 0; rep < 9; rep++ {
 				r, err := e.open(st, ev)
 				if err != nil {
 					res.SetupErr = err.Error()
 					return
 				}
 				in := append([]byte(nil), inputs[k]...)
-				t0 := time.Now()
+				// CPU time of this process, not wall time: other processes competing for the
+				// cores do not inflate it; no collection runs inside the timed section
+				runtime.GC()
+				gcp := debug.SetGCPercent(-1)
+				t0 := cpuNow()
 				o, p := safeFeed(r, in)
+				dt := cpuNow() - t0
+				debug.SetGCPercent(gcp)
 				if p == nil {
 					p = o.pan
 				}
-				dt := time.Since(t0).Nanoseconds()
 				r.Close()
 				if p != nil {
 					// a panic on a well-formed scaled sample is found by the stream as well; not timed
@@ -474,8 +481,18 @@ func childScale(e *entry, sp *spec, res *result) {
 			rec.Ratio = append(rec.Ratio, float64(mins[k])/float64(max64(mins[k-1], 1)))
 		}
 		rec.Flag = mins[2] < 1<<62 && mins[2] >= 200_000 && rec.Ratio[0] >= 6 && rec.Ratio[1] >= 6
+		if rec.Flag {
+			rec.Input = hex.EncodeToString(inputs[2])
+		}
 		res.Scale = append(res.Scale, rec)
 	}
+}
+
+// cpuNow returns the CPU time consumed by this process so far (CLOCK_PROCESS_CPUTIME_ID), in ns.
+func cpuNow() int64 {
+	var ts syscall.Timespec
+	syscall.Syscall(syscall.SYS_CLOCK_GETTIME, 2, uintptr(unsafe.Pointer(&ts)), 0)
+	return ts.Nano()
 }
 
 func max64(a, b int64) int64 {
